@@ -299,8 +299,24 @@ func taLog(r *rng, maxRows int, s *sink) string {
 			b.WriteString("# Sector 1: 00:02:03.202" + eol)
 		}
 	}
+	lapNo := 0
+	if r.chance(1, 6) {
+		lapNo = r.intn(3)
+	}
+	markers := 0
+	// a lap marker may stand anywhere, also among the header comments before the column names
+	// and straight after them (a lap without rows)
+	earlyMarker := func(where string) {
+		if r.chance(1, 10) {
+			fmt.Fprintf(&b, "# Lap %d: %02d:%02d:%02d.%03d%s", lapNo, r.intn(2), r.intn(60), r.intn(60), r.intn(1000), eol)
+			lapNo += 1 + boolInt(r.chance(1, 8))
+			markers++
+			s.count("wf.marker." + where)
+		}
+	}
 	for n := r.intn(5); n > 0; n-- {
 		comment()
+		earlyMarker("before_columns")
 	}
 	quoted := r.chance(2, 3)
 	hs := make([]string, nc)
@@ -311,12 +327,8 @@ func taLog(r *rng, maxRows int, s *sink) string {
 		}
 	}
 	b.WriteString(strings.Join(hs, ",") + eol)
+	earlyMarker("after_columns")
 	rows := r.intn(maxRows + 1)
-	lapNo := 0
-	if r.chance(1, 6) {
-		lapNo = r.intn(3)
-	}
-	markers := 0
 	for i := 0; i < rows; i++ {
 		vals := make([]string, nc)
 		for j, ci := range idx {
@@ -607,6 +619,8 @@ func corpusTA(cfg *config) []string {
 		"dec mut " + hexStr("# Vehicle\n"),
 		"dec mut " + hexStr("# Lap 3\n"),
 		"dec mut " + hexStr("# Session End\n"),
+		// a lap marker before the column names: the rows after it belong to the next lap
+		"dec wf " + hexStr("# Vehicle: X\n# Lap 0: 00:00:10.000\nTime,Lap\n0.000,1\n0.100,1\n# Lap 1: 00:00:20.500\n0.000,2\n# Session End\n"),
 		"dec mut " + hexStr("# End Point: 50.857952, -0.752617  @ 1.2.3 deg\nTime\n1.000\n"),
 		"dec mut " + hexStr("# End Point: 50.857952, -0.752617  @ - deg\nTime\n1.000\n"),
 		"dec mut " + hexStr("# End Point: 50.8.5, -0.752617  @ 10 deg\nTime\n1.000\n"),
